@@ -431,7 +431,8 @@ def coopdynLine : P String := do
   let queries ← P.list (do
       let s ← factorsP S; let a ← factorsP A; let viaCopy ← P.bool; let rew ← P.q
       let pr ← P.rep (do let p ← P.q; let ppf ← P.q; pure (p, ppf)) nS
-      pure (s, a, viaCopy, rew, pr))
+      let k ← P.nat; let subK ← P.rep P.nat k; let subV ← P.rep P.nat k; let pm ← P.q
+      pure (s, a, viaCopy, rew, pr, subK.zip subV, pm))
   P.eof
   let comp := "Factored::MDP::CooperativeModel"
   let n := S.length
@@ -452,7 +453,7 @@ def coopdynLine : P String := do
         v.diffIf (ddnPartialSize S ps aid != part) s!"DDNGraph::getPartialSize feature={i} actionId={aid} model={ddnPartialSize S ps aid} impl={part}") v) v
   -- dynamics and rewards
   let jslack : Rat := tol * n + eps
-  let v := queries.foldl (fun (v : Verdict) (s, a, viaCopy, rew, pr) =>
+  let v := queries.foldl (fun (v : Verdict) (s, a, viaCopy, rew, pr, sub, pm) =>
       let who := if viaCopy then comp ++ "(copy)" else comp
       let mrow := jointRow g mats s a
       let irow := pr.map (·.1)
@@ -461,6 +462,8 @@ def coopdynLine : P String := do
                 s!"{who}::getTransitionProbability transition_not_supplied s={s} a={a}"
       let v := v.failIf (!(pr.all (fun (p, ppf) => closeQ eps p ppf)))
                 s!"DDN::getTransitionProbability(PartialFactors) transition_not_supplied s={s} a={a}"
+      let mm := marginalProb g mats s a sub
+      let v := v.failIf (!(closeQ eps mm pm)) s!"DDN::getTransitionProbability(PartialFactors) marginal_not_supplied s={s} a={a} sub={sub} model={mm} impl={pm}"
       let mr := coopReward g bases s a
       v.failIf (!(closeQ eps mr rew)) s!"{who}::getExpectedReward reward_not_supplied s={s} a={a} model={mr} impl={rew}") v
   return v.render
